@@ -8,7 +8,8 @@ import re
 from bridgegen import *  # noqa
 from cfront import CType
 
-SLICE_N = 3
+import os as _os
+SLICE_N = 4 if _os.environ.get("VERIF_TIER") == "thorough" else 3
 
 
 class Mismatch(Exception):
